@@ -9,7 +9,8 @@ TECHNIQUE = 'differential oracle: CPython ast.parse vs pedal verify()/set_source
 LEVEL_TEXT = ('Held on the texts observed: every text is parsed by CPython (accept / SyntaxError class + lineno) and by '
               'pedal; never-raises, feedback-iff-rejected, reported line, blank handling and the stored tree are '
               'compared. Exploration over generated programs, stdlib/pedal corpus files, 1-3 character/line edits of '
-              'them and a hostile text list; not a proof over all strings.')
+              'them and a hostile text list; not a proof over all strings. Dimensions: 15 ways of offering the text (sections, substitutions '
+              'and restores while a section is current, other file names, earlier failures) x the formatter of every platform.')
 LEVEL_NOTE = ('Oracle = the same CPython parser pedal calls. For texts on which the parser itself gives up without a SyntaxError '
               '(its stack is exhausted: RecursionError/MemoryError; a lone surrogate cannot be encoded) there is no line to compare: '
               'verify() must still return, return False and attach a syntax feedback.')
